@@ -189,11 +189,13 @@ func (t *tree) doInsert(
 				t.pendingRemovedNodes = append(t.pendingRemovedNodes, ptr.ExtractUnchecked())
 			}
 
+			// No longer eligible for eviction as it is dirty. This needs to happen before
+			// the value is replaced so that the cache accounts for the size of the old value.
+			t.cache.rollbackNode(ptr)
+
 			n.Value = val
 			n.Clean = false
 			ptr.SetDirty()
-			// No longer eligible for eviction as it is dirty.
-			t.cache.rollbackNode(ptr)
 			return insertResult{
 				newRoot:      ptr,
 				insertedLeaf: ptr,
